@@ -4,4 +4,9 @@ set -e
 cd "$(dirname "$0")/engine"
 export CARGO_NET_OFFLINE=true
 [ -f Cargo.lock ] || cp /repo/Cargo.lock Cargo.lock
-cargo build --release --offline --workspace 2>&1 | tail -3
+# one package at a time: building the whole workspace at once would unify cargo features across
+# the harness crates (h_static enables tracing/max_level_info, h_log enables tracing/log)
+for p in mc h_core h_reg h_fmt h_filt h_span h_static h_app h_attr h_log; do
+  [ -d "$p" ] || continue
+  cargo build --release --offline -q -p "$p" 2>&1 | tail -3
+done
